@@ -44,7 +44,7 @@ func c03Scenarios(tier core.Tier) []scenario {
 		{Name: "c03.kv.blind", Universe: "U-kv", Depth: 6 + d, Orcs: orcs,
 			Menu: chain.Menu{Recv: true, Sync: true, Submit: []string{"pBlind", "pW1"}, DoTx: []string{"pBlind", "pW1", "pR"}, Mine: 1, Blocks: []string{"k1", "k2", "k3"}}},
 		{Name: "c03.amt", Universe: "U-amt", Depth: 5 + d, Orcs: orcs,
-			Menu: chain.Menu{Recv: true, Sync: true, Play: true, WalkSome: true, Submit: []string{"sA", "sA2", "sFrozen", "sUnbalanced", "tM"}, Mine: 1, Restart: true, Blocks: []string{"x1", "x2", "y1", "y2"}}},
+			Menu: chain.Menu{Recv: true, Sync: true, Play: true, WalkSome: true, Submit: []string{"sA", "sA2", "sFrozen", "sUnbalanced", "tM", "sPadTrail", "sPadLead"}, Mine: 1, Restart: true, Blocks: []string{"x1", "x2", "y1", "y2"}}},
 		{Name: "c03.3way", Universe: "U-3way", Depth: 5 + d, Orcs: orcs,
 			Menu: chain.Menu{Recv: true, Sync: true, Play: true, WalkSome: true, Submit: []string{"tS", "tA2", "tD2", "tB2"}, Mine: 1, Blocks: []string{"a1", "a2", "d2", "b1", "b2", "dup3"}}},
 		{Name: "c03.fee", Universe: "U-3way-honest", Depth: 6 + d, Orcs: orcs,
